@@ -25,6 +25,16 @@ def check(ctx):
     R.compare(ctx, rows, proj_grammar, 'C01 grammar/drops through chains', oracle=oracle_grammar, oracle_is_property=True, nontrivial=lambda c, gd: gd.get('trace', '-') != '-')
     C04_more.parts_C01(ctx)
     k = kernel_part.parts(ctx) or {}
+    # (c) subjects fed by several goroutines while a terminal races with the values: nothing after the terminal
+    for c, g, l in R.run_kind(ctx, 'subjoverlap', shards=4):
+        ctx.evaluations += 1
+        gd = R.parse_res(g)
+        if flag(gd):
+            ctx.violation('C01 subject run could not be evaluated', f'{c}\n# implementation: {g}\n', no_input=True)
+        elif gd.get('grammar') != 'ok' and R.parse_res(l).get('expect') == 'serialized':
+            ctx.violation('C01: a subscriber of a subject received a notification after its terminal', f'{c}\n# implementation: {g}\n# model: {l}\n')
+        else:
+            ctx.traces_validated += 1
     return dict(search=k.get('search'), assumptions=k.get('assumptions'), extra=k.get('extra'), rule=(k.get('rule', '') + '; ' if k.get('rule') else '') + 'random chains of 2-5 int->int operators (sync/hot, cuts) + ' + 'every catalogue operator x parameters x variants x raw scripts (exhaustive to length 2/3 over {-1,0,2,3}, three endings, '
                      'illegal suffixes N/C/E after the terminal, seeded longer scripts) x {sync, hot} source x external cut; '
                      'compared: kinds of delivered notifications + multiset of dropped notifications; oracle: Grammar on the implementation trace; '
